@@ -1322,6 +1322,12 @@ func (fc *FnCtx) havocLoop(fr *Frame, st *State, li *loopInfo) {
 			noteAddr(fid, x.Addr)
 		case *ssa.Alloc, *ssa.MakeSlice, *ssa.MakeMap, *ssa.MakeChan, *ssa.MakeClosure, *ssa.MakeInterface:
 			special[keyAlloc] = true
+		case *ssa.Next:
+			if rg, ok := x.Iter.(*ssa.Range); ok {
+				if _, isMap := unalias(rg.X.Type()).Underlying().(*types.Map); isMap {
+					special[cellKey{fid, "visited:" + rg.Name()}] = true
+				}
+			}
 		case *ssa.Send:
 			if ci := fc.chanInvFor(x.Chan); ci != nil {
 				special[cellKey{0, "sent:" + ci.Key}] = true
@@ -1489,6 +1495,11 @@ func (fc *FnCtx) havocLoop(fr *Frame, st *State, li *loopInfo) {
 		if name, ok := k.v.(string); ok {
 			if g, ok := fc.eng.ghosts[name]; ok {
 				st.cells[k] = fc.fresh("gh_"+name, specSort(g.Type))
+			}
+			if strings.HasPrefix(name, "visited:") {
+				if old, has := st.cells[k].(Term); has {
+					st.cells[k] = fc.fresh("visited", old.Sort)
+				}
 			}
 			if strings.HasPrefix(name, "sent:") {
 				// send counters only grow
